@@ -56,7 +56,7 @@ C07Event(o, k, b) ==
       after == e.after
       kept == StCritIds(before) \cap StCritIds(after)
   IN (IF ValuesCoherent(after) THEN {} ELSE {BFail("C07", "values-incoherent", "")})
-     \cup (IF e.probeEval /\ e.probeRank THEN {} ELSE {BFail("C07", "params-incoherent", "")})
+     \cup (IF Has(e, "probeEval") => (e.probeEval /\ e.probeRank) THEN {} ELSE {BFail("C07", "params-incoherent", "")})
      \cup (IF SplitSame(before, after) THEN {} ELSE {BFail("C07", "split-changed", "")})
      \cup (IF ~e.fired THEN (IF before = after THEN {} ELSE {BFail("C07", "skip-changed-state", "")})
            ELSE (IF StCritIds(before) \ StCritIds(after) = ReportedRemoved(name, rep)
@@ -132,7 +132,7 @@ C15Event(o, k, b) ==
           \cup (IF StCritIds(after) = StCritIds(before) \ SeqSet(om) /\ NoDup(CritIdSeq(after)) THEN {} ELSE {BFail("C15", "partition", "")})
           \cup (IF ~(SeqSet(om) \subseteq StCritIds(before)) \/ OrderingOK(o, k, before, SeqSet(om), StCritIds(before) \ SeqSet(om), p)
                 THEN {} ELSE {BFail("C15", "importance-order", "")})
-          \cup (IF ValuesCoherent(after) /\ e.probeEval /\ e.probeRank THEN {} ELSE {BFail("C15", "not-restricted", "")})
+          \cup (IF ValuesCoherent(after) /\ (Has(e, "probeEval") => (e.probeEval /\ e.probeRank)) THEN {} ELSE {BFail("C15", "not-restricted", "")})
 
 (* ---------------- C16: preference reversal ---------------- *)
 C16Event(o, k, b) ==
@@ -482,5 +482,19 @@ C19Event(o, k, b) ==
                            THEN (IF Has(rep.applierResult, "appliedDifferences") /\ inlineOK THEN {} ELSE {BFail("C19", "inline-applier", "")})
                                 \cup (IF ValuesCoherent(after) /\ AllIds(after) = AllIds(before) /\ StCritIds(after) = C /\ zeroIdentity THEN {} ELSE {BFail("C19", "zero-functions-changed-data", "")})
                            ELSE (IF Has(rep.applierResult, "addedCriteria") /\ newOK THEN {} ELSE {BFail("C19", "new-criterion-applier", "")})))
+
+
+(* ---------------- C08: relations between runs ---------------- *)
+FiredVec(o) == [k \in DOMAIN BiasEvents(o) |-> BiasEvents(o)[k].fired]
+ProbVec(o) == [k \in DOMAIN ReqBiases(o) |-> BProb(ReqBiases(o)[k], o.case.unit)]
+SeedOf(o) == PGet(o.case.req, "biasApplyRandomSeed", 0)
+(* one hidden draw d(seed, position) must explain both runs: whoever fired had the larger probability *)
+C08PairOK(o1, o2) ==
+  (o1.status = 200 /\ o2.status = 200 /\ SeedOf(o1) = SeedOf(o2)) =>
+    \A pos \in 1..NMin(Len(FiredVec(o1)), Len(FiredVec(o2))) :
+       /\ (FiredVec(o1)[pos] /\ ~FiredVec(o2)[pos]) => ProbVec(o1)[pos] > ProbVec(o2)[pos]
+       /\ (FiredVec(o2)[pos] /\ ~FiredVec(o1)[pos]) => ProbVec(o2)[pos] > ProbVec(o1)[pos]
+(* over N seeds a bias with probability pn/4 fires N*pn/4 times, within 7 standard deviations *)
+C08FreqOK(count, n, pn) == (4 * count - n * pn) * (4 * count - n * pn) <= 49 * n * pn * (4 - pn)
 
 =============================================================================
